@@ -188,7 +188,26 @@ impl Driver {
         let c = self.w.c.clone();
         let f = Forge { c: &c };
         let view = self.max_view();
-        match self.rng.gen_range(0..6) {
+        match self.rng.gen_range(0..7) {
+            6 => {
+                // a timeout certificate for view v that aggregates (genuine) timeout votes signed in an EARLIER view
+                let touts = timeouts_in(&self.pool);
+                let views: Vec<u64> = touts.iter().map(|t| t.msg.view.number.0).collect();
+                let old = *views.iter().min()?;
+                let votes: Vec<_> = touts.iter().filter(|t| t.msg.view.number.0 == old).cloned().collect();
+                let mut qc = f.timeout_qc(old, &votes);
+                for x in self.w.faulty.clone() {
+                    let t = ReplicaTimeout { view: c.view(old), high_vote: None, high_qc: None };
+                    let _ = qc.add(&f.sign(x, ChonkyMsg::ReplicaTimeout(t)).cast().unwrap(), c.genesis.hash(), EPOCH, &c.schedule);
+                }
+                qc.view = c.view(view.max(old + 1));
+                if self.rng.gen_bool(0.5) {
+                    Some(f.sign(b, ChonkyMsg::ReplicaNewView(ReplicaNewView { justification: ProposalJustification::Timeout(qc) })))
+                } else {
+                    let payload = Some(self.w.labels.payload(&format!("z{}", self.rng.gen_range(0..3))));
+                    Some(f.sign(b, ChonkyMsg::LeaderProposal(LeaderProposal { proposal_payload: payload, justification: ProposalJustification::Timeout(qc) })))
+                }
+            }
             0 => {
                 // signature by another (faulty/outsider) key over the message, attributed to b
                 let p = self.w.labels.payload("z1");
